@@ -39,17 +39,18 @@ theorem LogRel.refl (F : FS) : LogRel F F := Or.inl rfl
 theorem open_readable (F : FS) (h : DirReadable eg F) (vol : Bool) (opts : Opts) :
     (openDB F vol true opts eg).failed = none ∧
     ∀ k, (ilookup k (openDB F vol true opts eg).index).map valOf = diskValue F k := by
-  obtain ⟨dbB, used, hoi, hidx, hdats, hfl, hused⟩ := openIndex_used F vol opts
+  obtain ⟨dbB, used, hoi, hidx, hdats, hfl, hused⟩ := openIndex_used (eg := eg) F vol opts
   have hfr := frame_cleanupold dbB used
   have hXi : (cleanupold dbB used).index = diskIndex F := hfr.index.trans hidx
   have hXf : (cleanupold dbB used).failed = none := hfr.failed.trans hfl
+  have hXe : (cleanupold dbB used).eager = eg := by rw [← hoi]; exact openIndex_eager F vol opts
   have hXd : ∀ kr ∈ diskIndex F, dlookup kr.2.seq (cleanupold dbB used).fs.dats = dlookup kr.2.seq F.dats := by
     intro kr hkr
     have hck := cleanupold_keeps dbB used kr.2.seq (Or.inr (hused kr hkr))
     unfold cleanKeeps at hck
     simp only [Prod.mk.injEq] at hck
     rw [hck.2.2.2.1, hdats]
-  have hfold := loadFold_general (diskIndex F) (cleanupold dbB used) hXf (by
+  have hfold := loadFold_general (diskIndex F) (cleanupold dbB used) hXf hXe (by
     intro kr hkr
     obtain ⟨h1, f, v, h3, h4⟩ := h kr hkr
     exact ⟨h1, f, v, by rw [hXd kr hkr]; exact h3, h4⟩) []
@@ -359,7 +360,7 @@ theorem sync_prefix_grown (db : DB) (inv : DiskInv db) (n : Nat) (hn : n < (sync
   exact ⟨(gA.trans gB).trans hC.1, hC.2⟩
 
 /-- a reachable state's directory is openable -/
-theorem openOK_of_inv (db : DB) (inv : DiskInv db) : OpenOK eg db.fs :=
+theorem openOK_of_inv (db : DB) (inv : DiskInv db) : OpenOK db.eager db.fs :=
   ⟨Or.inl (by obtain ⟨E, hE, hs⟩ := inv.logst; exact ⟨E, hE, by rw [inv.ver]; exact hs⟩),
    by rw [inv.ver]; exact inv.verlt, fun kr hkr => ⟨inv.dflags kr hkr, inv.dreads kr hkr⟩⟩
 
@@ -371,13 +372,13 @@ theorem sync_keep (db : DB) (inv : DiskInv db) :
   | false => exact Or.inr (inv.dat2 ho kr hkr)
 
 theorem sync_prefix (db : DB) (inv : DiskInv db) (n : Nat) (hn : n < (syncEffs db).length) :
-    DirReadable eg (db.fs.applyAll ((syncEffs db).take n)) ∧
+    DirReadable db.eager (db.fs.applyAll ((syncEffs db).take n)) ∧
     ∀ k, diskValue (db.fs.applyAll ((syncEffs db).take n)) k = diskValue db.fs k :=
   (sync_prefix_grown db inv n hn).1.readable (openOK_of_inv db inv).readable (sync_keep db inv)
 
 /-- every directory strictly inside sync() is openable (so that the invariants hold again after NewDBExt) -/
 theorem sync_prefix_ok (db : DB) (inv : DiskInv db) (n : Nat) (hn : n < (syncEffs db).length) :
-    OpenOK eg (db.fs.applyAll ((syncEffs db).take n)) := by
+    OpenOK db.eager (db.fs.applyAll ((syncEffs db).take n)) := by
   obtain ⟨g, l⟩ := sync_prefix_grown db inv n hn
   exact openOK_of_grown g l (openOK_of_inv db inv)
     (by obtain ⟨E, hE, hs⟩ := inv.logst; exact ⟨E, hE, by rw [inv.ver]; exact hs⟩) (sync_keep db inv)
